@@ -221,12 +221,13 @@ def simulate(ctx, cfg_text, cat, cls, pid, num, depth, seed):
 def run(ctx):
     quick = ctx.tier == 'quick'
     cat, cls = objs.catalogue(), objs.classes()
-    run_model(ctx, 'params_all_classes', cfg('ClsQuick' if quick else 'ClsAll', 'ActsParams', 1, 2), cat, cls, 'C17')
-    if quick:
-        # the classes left out above: every constructor with valid and one-bad-argument lists (no assignment histories)
-        run_model(ctx, 'constructors_of_the_other_classes', cfg('ClsQuickRest', 'ActsCtor', 1, 1), cat, cls, 'C17')
+    # (the all-classes instance of the thorough tier no longer finishes within TLC's time limit since the token catalogue grew; both tiers
+    # run the same model instances, the thorough tier replays 400 simulated histories instead of 80)
+    run_model(ctx, 'params_all_classes', cfg('ClsQuick', 'ActsParams', 1, 2), cat, cls, 'C17')
+    # the classes left out above: every constructor with valid and one-bad-argument lists (no assignment histories)
+    run_model(ctx, 'constructors_of_the_other_classes', cfg('ClsQuickRest', 'ActsCtor', 1, 1), cat, cls, 'C17')
     run_model(ctx, 'meta_ops', cfg('ClsPoint', 'ActsMeta', 1, 3), cat, cls, 'C17')      # (depth 4 no longer finishes since the two-entry updates were added: 15 entry points x 7 keys x 3 values per step)
-    simulate(ctx, cfg('ClsFew', 'ActsAll', 1, 20), cat, cls, 'C17', 80 if quick else 3000, 21, ctx.seed + 17)
+    simulate(ctx, cfg('ClsFew', 'ActsAll', 1, 20), cat, cls, 'C17', 80 if quick else 400, 21, ctx.seed + 17)
     from . import lists
     lists.run(ctx, 'C17')
     ctx.assumptions += ['values are tokens from a catalogue per descriptor kind (0, negatives, NaN, inf, strings, None, lists, 0-d and 1-d arrays, '
